@@ -53,7 +53,14 @@ def gen_placement(rng, trait, alloc, allow_helper=True):
     return {"chain": chain, "this": {"cfg": level_cfg(rng), "m": alloc.next()}, "common": {"cfg": level_cfg(rng), "m": alloc.next()}}
 
 
-def gen_spec(rng, trait=None, kind=None):
+def co_choices(trait):
+    """Traits that can be derived next to `trait` without sharing helper attributes or supertrait stubs with it."""
+    if trait in M.AFFECTS:
+        return ["Clone", "Debug"]
+    return [t for t in ("Clone", "Debug", "Hash", "PartialEq") if t != trait and not (trait == "Copy" and t == "Clone")]
+
+
+def gen_spec(rng, trait=None, kind=None, co_ok=True):
     trait = trait or rng.choice(ENUM_OK * 3 + STRUCT_ONLY)
     if trait in STRUCT_ONLY:
         kind = "struct"
@@ -77,6 +84,14 @@ def gen_spec(rng, trait=None, kind=None):
         for v in spec["variants"]:
             for f in v["fields"]:
                 f["g"] = alloc.next()
+        # a second trait in the same lists with per-trait bounds of its own: they must not reach `trait`
+        spec["co"] = None
+        if co_ok and rng.random() < 0.35:
+            spec["co"] = {"trait": rng.choice(co_choices(trait)), "pos": rng.choice(["before", "before", "after"]), "m": alloc.next()}
+            for v in spec["variants"]:
+                for pl in [v["place"]] + [f["place"] for f in v["fields"]]:
+                    if pl is not None and rng.random() < 0.4:
+                        pl["co"] = {"pos": rng.choice(["before", "before", "after"]), "m": alloc.next()}
         if alloc.n <= C.NMARK:
             return spec
     raise RuntimeError("could not fit markers")
@@ -112,12 +127,30 @@ def placement_attrs(pl, trait, default_marker=False):
     return out
 
 
-def derive_ex_attr(pl, trait):
+def derive_ex_attr(pl, trait, cotrait=None):
     bt, bc = bound_text(pl["this"]), bound_text(pl["common"])
-    if bt is None and bc is None:
+    co = pl.get("co") if cotrait else None
+    if bt is None and bc is None and co is None:
         return []
-    el = f"{trait}({bt})" if bt is not None else trait
-    return [f"#[derive_ex({el}{', ' + bc if bc is not None else ''})]"]
+    el = [f"{trait}({bt})" if bt is not None else trait]
+    if co is not None:
+        ce = f"{cotrait}(bound(T: {D}M<{co['m']}>))"
+        el = [ce] + el if co["pos"] == "before" else el + [ce]
+    return [f"#[derive_ex({', '.join(el)}{', ' + bc if bc is not None else ''})]"]
+
+
+def co_type_elem(spec):
+    """The co-derived trait's own complete bound list at type level (no `..`): its where-clause is exactly this list."""
+    co = spec["co"]
+    ms = [co["m"]] + [f["g"] for v in spec["variants"] for f in v["fields"]]
+    return f"{co['trait']}(bound(" + ", ".join(f"T: {D}M<{m}>" for m in ms) + "))"
+
+
+def trait_order(spec):
+    co = spec.get("co")
+    if not co:
+        return [spec["trait"]]
+    return [co["trait"], spec["trait"]] if co["pos"] == "before" else [spec["trait"], co["trait"]]
 
 
 def field_ty(f, mode):
@@ -129,6 +162,7 @@ def render_item(spec, mode="cond", field_modes=None, name="Ty"):
     """mode: 'cond' -> field types implement the trait iff T: M<g>; 'always' -> unconditionally.
     field_modes: optional dict g -> mode."""
     trait = spec["trait"]
+    cot = spec["co"]["trait"] if spec.get("co") else None
     wh = f" where T: {D}Tr" if spec["where"] else ""
     tattrs = placement_attrs(spec["type"], trait)
     bodies = []
@@ -137,7 +171,7 @@ def render_item(spec, mode="cond", field_modes=None, name="Ty"):
         for fi, f in enumerate(v["fields"]):
             a = ""
             if f["place"]:
-                a = " ".join(placement_attrs(f["place"], trait) + derive_ex_attr(f["place"], trait))
+                a = " ".join(placement_attrs(f["place"], trait) + derive_ex_attr(f["place"], trait, cot))
                 a = a + " " if a else ""
             fm = (field_modes or {}).get(f["g"], mode)
             fs.append(f"{a}f{fi}: {field_ty(f, fm)}" if v["style"] == "named" else f"{a}{field_ty(f, fm)}")
@@ -149,13 +183,16 @@ def render_item(spec, mode="cond", field_modes=None, name="Ty"):
         for vi, (v, b) in enumerate(zip(spec["variants"], bodies)):
             va = []
             if v["place"]:
-                va = placement_attrs(v["place"], trait, default_marker=(trait == "Default" and vi == spec["dv"])) + derive_ex_attr(v["place"], trait)
+                va = placement_attrs(v["place"], trait, default_marker=(trait == "Default" and vi == spec["dv"])) + derive_ex_attr(v["place"], trait, cot)
             if trait == "Default" and vi == spec["dv"] and not any(x.startswith("#[default") for x in va):
                 va = ["#[default]"] + va
             vs.append(" ".join(va) + (" " if va else "") + f"V{vi}{b}")
         item = f"pub enum {name}<T>{wh} {{ " + ", ".join(vs) + " }"
     bt, bc = bound_text(spec["type"]["this"]), bound_text(spec["type"]["common"])
-    main = (f"{trait}({bt})" if bt is not None else trait) + (f", {bc}" if bc is not None else "")
+    els = [f"{trait}({bt})" if bt is not None else trait]
+    if cot:
+        els = [co_type_elem(spec)] + els if spec["co"]["pos"] == "before" else els + [co_type_elem(spec)]
+    main = ", ".join(els) + (f", {bc}" if bc is not None else "")
     return " ".join(tattrs) + (" " if tattrs else "") + item, main
 
 
@@ -221,11 +258,12 @@ def predicted_atoms(spec, contribs, norm_wr, norm_field):
     return atoms
 
 
-def observed_atoms(o, spec):
+def observed_atoms(o, spec, which=None):
     if o.get("status") != "ok" or not o.get("parses"):
         return None, "expansion failed"
-    slots, rest = C.impl_slots(o["items"], [spec["trait"]], skip_first_item=(spec["entry"] == "attr"))
-    s = slots[0]
+    order = trait_order(spec)
+    slots, rest = C.impl_slots(o["items"], order, skip_first_item=(spec["entry"] == "attr"))
+    s = slots[order.index(which or spec["trait"])]
     if s["status"] != "impl" or s["items"][0].get("kind") != "impl":
         return None, "no impl: " + str((s["items"] or [{}])[0].get("msg"))[:200]
     return {(a["ty"], a["short"]) for a in s["items"][0]["where_atoms"]}, None
@@ -247,7 +285,12 @@ def describe(spec):
         if p is None:
             return "."
         return "[" + ",".join(f"{x['helper']}:{lv(x)}" for x in p["chain"]) + f"|{lv(p['this'])}|{lv(p['common'])}]"
-    return (f"{spec['trait']} {spec['kind']} {spec['entry']} type{pl(spec['type'])} " +
+    co = spec.get("co")
+    cod = ""
+    if co:
+        n = sum(1 for v in spec["variants"] for q in [v["place"]] + [f["place"] for f in v["fields"]] if q and q.get("co"))
+        cod = f" co[{co['trait']} {co['pos']} +{n} inner]"
+    return (f"{spec['trait']} {spec['kind']} {spec['entry']}{cod} type{pl(spec['type'])} " +
             " ".join(f"V{i}{pl(v['place'])}(" + ",".join(pl(f["place"]) for f in v["fields"]) + ")" for i, v in enumerate(spec["variants"])))
 
 
@@ -256,18 +299,24 @@ def first_divergence(spec, missing, extra):
     names = {}
     for lvl in spec["type"]["chain"]:
         names[lvl["m"]] = f"type.{lvl['helper']}"
+    if spec.get("co"):
+        names[spec["co"]["m"]] = "type.co-trait"
     names[spec["type"]["this"]["m"]] = "type.this"
     names[spec["type"]["common"]["m"]] = "type.common"
     for v in spec["variants"]:
         if v["place"]:
             for lvl in v["place"]["chain"]:
                 names[lvl["m"]] = f"variant.{lvl['helper']}"
+            if v["place"].get("co"):
+                names[v["place"]["co"]["m"]] = "variant.co-trait"
             names[v["place"]["this"]["m"]] = "variant.this"
             names[v["place"]["common"]["m"]] = "variant.common"
         for f in v["fields"]:
             if f["place"]:
                 for lvl in f["place"]["chain"]:
                     names[lvl["m"]] = f"field.{lvl['helper']}"
+                if f["place"].get("co"):
+                    names[f["place"]["co"]["m"]] = "field.co-trait"
                 names[f["place"]["this"]["m"]] = "field.this"
                 names[f["place"]["common"]["m"]] = "field.common"
             names[f["g"]] = "field.default-bound"
@@ -329,6 +378,10 @@ def all_markers(spec):
             for lv in p["chain"] + [p["this"], p["common"]]:
                 if lv["cfg"] != "absent":
                     out.add(lv["m"])
+            if p.get("co"):
+                out.add(p["co"]["m"])
+    if spec.get("co"):
+        out.add(spec["co"]["m"])
     pl(spec["type"])
     for v in spec["variants"]:
         pl(v["place"])
@@ -369,7 +422,7 @@ def run(rep, tier, rng):
     # core corpus: every single level alone with every config, every trait
     for trait in ENUM_OK + STRUCT_ONLY:
         for kind in (["struct"] if trait in STRUCT_ONLY else ["struct", "enum"]):
-            base = gen_spec(C.rng_for("C04core", 0), trait, kind)
+            base = gen_spec(C.rng_for("C04core", 0), trait, kind, co_ok=False)
             levels = []
 
             def collect(p):
@@ -419,6 +472,30 @@ def run(rep, tier, rng):
                         lv2[li]["cfg"] = cfg
                         lv2[lj]["cfg"] = "pred"
                         s["where"] = False
+                        specs.append(s)
+            # a co-derived trait with a per-trait bound before / after the judged trait, in the type's list and in a field's list
+            for pos in ("before", "after"):
+                for inner in (False, True):
+                    for this_cfg in ("absent", "pred+dots"):
+                        s = json.loads(json.dumps(base))
+                        lv4 = []
+
+                        def collect4(p):
+                            if p:
+                                lv4.extend(p["chain"] + [p["this"], p["common"]])
+                        collect4(s["type"])
+                        for v in s["variants"]:
+                            collect4(v["place"])
+                            for f in v["fields"]:
+                                collect4(f["place"])
+                        for x in lv4:
+                            x["cfg"] = "absent"
+                        s["type"]["this"]["cfg"] = this_cfg
+                        s["where"] = False
+                        s["co"] = {"trait": co_choices(trait)[0], "pos": pos, "m": C.NMARK - 1}
+                        if inner:
+                            v = [v for v in s["variants"] if v["active"]][0]
+                            v["fields"][0]["place"]["co"] = {"pos": pos, "m": C.NMARK - 2}
                         specs.append(s)
     ncore = len(specs)
     rep.count("core_configurations", ncore)
